@@ -1436,13 +1436,29 @@ class _MA(object):
     def array(data, mask=False, copy=False, dtype=None, **kw):
         if kw:
             raise ModelGap("ma.array kwargs")
-        d = array(data, dtype=dtype)
+        d = array(data, dtype=dtype) if copy else asarray(data, dtype=dtype)      # copy=False: the masked array works on the caller's buffer
         if mask is False or mask is None:
             m = zeros(d.shape, 'b')
         else:
             ms, mf = _discover(mask)
             m = ndarray(d.shape, 'b', [bool(x) for x in _broadcast_flat(ms, mf, d.shape)])
         return MaskedArray(d, m)
+
+    @staticmethod
+    def fix_invalid(a, mask=False, copy=True, fill_value=None):
+        """mask NaN / inf and overwrite them with the fill value (default 1e20) - in the caller's buffer when copy=False"""
+        if isinstance(a, MaskedArray):
+            raise ModelGap("fix_invalid of a masked array")
+        r = _MA.array(a, mask=mask, copy=copy)
+        if r._data.dtype.kind != 'f':
+            return r
+        fv = 1e20 if fill_value is None else fill_value
+        d = r._data._d
+        for i, c in enumerate(d):
+            if _isnan_cell(c) or (not isinstance(c, Sym) and c in (inf, -inf)):
+                r._mask._set(i, True)
+                r._data._set(i, fv)
+        return r
 
     @staticmethod
     def asarray(data, dtype=None):
